@@ -6,6 +6,7 @@ import (
 	"go/types"
 	"sort"
 	"strconv"
+	"strings"
 
 	"golang.org/x/tools/go/ssa"
 
@@ -240,6 +241,15 @@ func runC02(c *core.Ctx) {
 	c.Doc("C02.readn", "ReadN: nil only when complete, fragments accumulated at the right offset; every call passes the length of the buffer it fills", 10)
 	ruleReadNComplete(c, "C02.readn")
 	ruleReadNCalls(c, newDecoderSet(c), "C02.readn")
+	// "consumes exactly the bytes the encoder produced": a value decoder that reads its
+	// source through anything but the repository's decoders (a read-ahead buffer, a fast
+	// path for one concrete reader, a length probe on the source) consumes more or less
+	// than that depending on the source (rule shared with C03 and C08)
+	c.Doc("C02.reader-discipline", "value decoders and signature readers consume their source only through the repository's decoders (no read-ahead, no source-dependent paths)", 20)
+	ruleReaderDiscipline(c, newDecoderSet(c), "C02.reader-discipline", func(fn *ssa.Function) bool {
+		p := fn.Pkg.Pkg.Path()
+		return strings.HasSuffix(p, "/type/value") || strings.HasSuffix(p, "/meta/signature") || strings.HasSuffix(p, "/type/basic") || strings.HasSuffix(p, core.WitnessDirName)
+	})
 	c.Doc("C02.limits", "size-limit comparisons accept the limit itself (encoder/decoder/reader agree)", 8)
 	ruleLimitComparisons(c, "C02.limits")
 }
